@@ -411,7 +411,13 @@ fn queue_main(plan: &Value, slot: Arc<Mutex<Option<QueueRun>>>) {
         .thread_name("bgq")
         .metric_name("q")
         .flush_interval(Duration::from_nanos(flush_interval))
-        .shutdown_timeout(Duration::from_nanos(ju(plan, "shutdown_timeout_ns", 1_000_000_000_000_000).max(1)));
+        .shutdown_timeout(match ju(plan, "shutdown_timeout_huge", 0) {
+            // "wait as long as it takes", spelled the ways a caller would spell it
+            1 => Duration::MAX,
+            2 => Duration::from_secs(u64::MAX / 2),
+            3 => Duration::from_secs(1 << 62),
+            _ => Duration::from_nanos(ju(plan, "shutdown_timeout_ns", 1_000_000_000_000_000).max(1)),
+        });
     let global_tl = jb(plan, "recorder", false) && js(plan, "recorder_kind", "local") == "global_tl";
     if global_tl {
         // the "global recorder" bridge resolves the recorder at every call through the `metrics`
@@ -1079,7 +1085,7 @@ impl Scenario for QueueFifoSustained {
         1
     }
     fn generate(&self, rng: &mut Rng, tier: Tier) -> Value {
-        gen_c01_sustained(rng, tier)
+        huge_timeout_stratum(gen_c01_sustained(rng, tier))
     }
     fn run(&self, plan: &Value) -> Report {
         let (out, run) = run_queue_plan(plan);
@@ -1223,6 +1229,18 @@ const QUEUE_PROBES: [&str; 6] = [
     "flush_with_nonempty_queue",
 ];
 
+/// A tenth of the plans whose shutdown timeout means "never give up" (10^6 s) say so with `Duration::MAX` or
+/// another huge value instead. Decided from the schedule seed, so that no other draw of the plan moves.
+fn huge_timeout_stratum(mut plan: Value) -> Value {
+    if ju(&plan, "shutdown_timeout_ns", 0) == 1_000_000_000_000_000 {
+        let h = mix(ju(plan.get("sched").unwrap_or(&Value::Null), "seed", 0), 0x7107);
+        if h % 10 == 0 {
+            plan["shutdown_timeout_huge"] = json!(1 + (h / 10) % 3);
+        }
+    }
+    plan
+}
+
 fn queue_components() -> Value {
     json!({
         "real": ["BackgroundQueueBuilder/BackgroundQueue/BackgroundQueueJoinHandle", "Receiver::run/drain_until_deadline/consume/report_validation_error/shut_down", "WakerTracker", "BoxEntrySink/BoxEntry", "FlushWait", "rate_limited!", "crossbeam ArrayQueue (atomic step)", "std mpsc flush channel (atomic step)", "tokio oneshot (atomic step)"],
@@ -1243,7 +1261,7 @@ impl Scenario for QueueFifo {
         4
     }
     fn generate(&self, rng: &mut Rng, tier: Tier) -> Value {
-        gen_c01(rng, tier)
+        huge_timeout_stratum(gen_c01(rng, tier))
     }
     fn run(&self, plan: &Value) -> Report {
         let (out, run) = run_queue_plan(plan);
@@ -1479,7 +1497,7 @@ impl Scenario for QueueOverflow {
         "C09"
     }
     fn generate(&self, rng: &mut Rng, tier: Tier) -> Value {
-        gen_c09(rng, tier)
+        huge_timeout_stratum(gen_c09(rng, tier))
     }
     fn run(&self, plan: &Value) -> Report {
         let (out, run) = run_queue_plan(plan);
@@ -1869,7 +1887,7 @@ impl Scenario for QueueFlushBarrier {
         3
     }
     fn generate(&self, rng: &mut Rng, tier: Tier) -> Value {
-        gen_c04_safety(rng, tier)
+        huge_timeout_stratum(gen_c04_safety(rng, tier))
     }
     fn run(&self, plan: &Value) -> Report {
         let (out, run) = run_queue_plan(plan);
@@ -1899,7 +1917,7 @@ impl Scenario for QueueFlushLiveness {
         1
     }
     fn generate(&self, rng: &mut Rng, tier: Tier) -> Value {
-        gen_c04_liveness(rng, tier)
+        huge_timeout_stratum(gen_c04_liveness(rng, tier))
     }
     fn run(&self, plan: &Value) -> Report {
         let (out, run) = run_queue_plan(plan);
@@ -2245,7 +2263,7 @@ impl Scenario for QueueShutdown {
         4
     }
     fn generate(&self, rng: &mut Rng, tier: Tier) -> Value {
-        gen_c05(rng, tier)
+        huge_timeout_stratum(gen_c05(rng, tier))
     }
     fn run(&self, plan: &Value) -> Report {
         let (out, run) = run_queue_plan(plan);
